@@ -448,6 +448,20 @@ def to_lz4(data, rng=None, block_max_id=4, chunk=None, stored=True, content_chec
     return bytes(out)
 
 
+def to_lz4_legacy(data, chunk=None):
+    """LZ4 *legacy* frame (what `lz4 -l` writes; magic 0x184C2102): a sequence of (u32 compressed size, compressed block),
+    each block holding at most 8 MiB of content, ending where the file ends. Blocks are literal-only compressed blocks."""
+    chunk = min(chunk or (4 << 20), 4 << 20)      # (a literal-only block of a full 8 MiB would exceed the size a legacy block may have)
+    out = bytearray(struct.pack("<I", 0x184C2102))
+    i = 0
+    while i < len(data):
+        c = data[i:i + chunk]
+        i += len(c)
+        blk = _lz4_block_literals(c)
+        out += struct.pack("<I", len(blk)) + blk
+    return bytes(out)
+
+
 def to_tar(members, fmt="ustar"):
     """members: list of (name, data, mtime). Returns tar bytes.
     data may also be ("dir",), ("symlink", target) or ("hardlink", target): entries that are not regular files, as
@@ -521,6 +535,9 @@ def random_container(rng, kind, data, mtime=0, name="x.log"):
             if len(data) // chunk <= 400:
                 return to_xz_multiblock(data, chunk, preset, chk), {"kind": "xz", "preset": preset, "check": chk, "block_bytes": chunk}
         return to_xz(data, preset, chk), {"kind": "xz", "preset": preset, "check": chk}
+    if kind == "lz4" and data and rng.random() < 0.12:
+        chunk = rng.choice((None, 65536, 1000, 4 << 20))
+        return to_lz4_legacy(data, chunk), {"kind": "lz4", "frame": "legacy", "chunk": chunk}
     if kind == "lz4":
         bid = rng.choice((4, 5, 6, 7))
         chunk = rng.choice((None, None, 64, 100, 1000, 4096, 65536, 70000))
